@@ -187,8 +187,21 @@ def maxPacketSize : Nat := 2 ^ 24
 
 def intToBytes (n : Nat) : Bytes := [n / 65536 % 256, n / 256 % 256, n % 256]
 
-/-- `PomeloPacketEncoder.Encode` -/
+/-- `PomeloPacketEncoder.Encode` (repaired: a body of exactly 2^24 bytes is rejected) -/
 def frame (p : Packet) : Except PErr Bytes :=
+  if p.typ < 1 ∨ p.typ > 5 then .error .wrongType
+  else if p.body.length ≥ maxPacketSize then .error .exceed
+  else .ok (p.typ :: intToBytes p.body.length ++ p.body)
+
+/-- the header `frame` writes, as a function of type and body LENGTH only (lets the
+driver answer for 16 MB bodies without materialising them; `Props/C06.frame_eq_header`) -/
+def frameHeader (typ len : Nat) : Except PErr Bytes :=
+  if typ < 1 ∨ typ > 5 then .error .wrongType
+  else if len ≥ maxPacketSize then .error .exceed
+  else .ok (typ :: intToBytes len)
+
+/-- the encoder before the D13 `fix:` commit (`len(data) > MaxPacketSize`) -/
+def frameUnfixed (p : Packet) : Except PErr Bytes :=
   if p.typ < 1 ∨ p.typ > 5 then .error .wrongType
   else if p.body.length > maxPacketSize then .error .exceed
   else .ok (p.typ :: intToBytes p.body.length ++ p.body)
